@@ -47,6 +47,8 @@ def run(ctx):
     ctx.run_rule("R5-who-may", r5_who, F)
     ctx.run_rule("R6-number-layout", r6_layout, F)
     ctx.run_rule("R7-identity-lookup", r7_identity, F)
+    from rules import c09
+    ctx.run_rule("R8-batch-forget-default", c09.batch_forget_default, F)
     ctx.assumptions += ["number stability against the host and fd-based liveness after unlink are not examined"]
 
 
